@@ -6,6 +6,7 @@ asks the real banks for responses and checks them against the documented shapes:
 per-bin triangles (triangular / Fbank), fitted peak gain and position, L2 norm, 3 dB
 crossings / equivalent rectangular bandwidth (Gabor / gammatone).
 """
+import copy
 import math
 
 import numpy as np
@@ -310,13 +311,19 @@ def run_case(case, rec, mon=None):
         nyq = rate / 2
         tries = [(-1.0, None), (-1e-9, nyq / 2), (100.0, 100.0), (200.0, 100.0), (10.0, nyq + 1.5), (10.0, nyq + 100), (0.0, float(math.floor(nyq))),
                  (0.0, nyq / 3), (float(rng.uniform(0, nyq / 2)), float(math.floor(nyq)))]
-        for lo, hi in tries:
+        # negative lower edges at and around the poles of the scale formulas (-700 Hz mel, -1960 Hz Bark), tiny and huge
+        tries += [(lo, hi) for lo in (-700.0, -701.5, -1960.0, -2000.25, -1e9, -1e-300) for hi in (None, nyq / 2)]
+        scales = ["mel", "bark", {"name": "linear", "low_hz": 0.0, "slope_hz": 1.0}, {"name": "octave", "low_hz": 20.0}]
+        for k, (lo, hi) in enumerate(tries):
             for name, cls in classes.items():
                 kw = dict(num_filts=3, high_hz=hi, low_hz=lo, sampling_rate=rate)
-                try:
-                    cls(**kw) if name == "fbank" else cls("mel", **kw)
-                except Exception:
-                    pass
+                for sc in (scales if lo < 0 else scales[k % 4:k % 4 + 1]):
+                    try:
+                        cls(**kw) if name == "fbank" else cls(copy.deepcopy(sc), **kw)
+                    except Exception:
+                        pass
+                    if name == "fbank":
+                        break
         rec.sample({"kind": "ranges", "rate": rate})
         rec.nt(("ranges", rate))
     if own:
@@ -345,7 +352,7 @@ def run_shard(spec, rec):
         if i % 50 == 10:
             # siblings of this bank in the same process: same class family, scale, filter count and low_hz, but another
             # sampling rate / the default high_hz / the other complex bank class (whatever is shared between banks must not leak)
-            for j, rate2 in enumerate((8000, 16000, 22050)):  # (even rates: the default high_hz of an odd rate is not pinned down by the documentation)
+            for j, rate2 in enumerate((8000, 16000, 11025 if cfg["name"] == "tri" else 22050)):  # (the default high_hz at an odd rate is documented for the triangular bank only)
                 sib = dict(cfg, sampling_rate=rate2, high_hz=None if j != 1 else float(rate2 // 4))
                 sib.pop("_kinds", None)
                 sib["low_hz"] = float(min(cfg["low_hz"], rate2 / 8))
